@@ -766,7 +766,12 @@ func (w *world) exec(st step) error {
 		w.judge(o, a, st)
 		w.event(map[string]any{"ev": "add", "t": tn, "wp": st.boolean("wp")}, o)
 	case "Begin":
-		tk := w.N.gate.find("read", ref, 300*time.Millisecond)
+		// a scheduled attempt shows up within a millisecond (1 ns retry delay); the generous wait only matters on a loaded machine
+		wait := 2 * time.Second
+		if ms, ok := st["wait"].(int); ok {
+			wait = time.Duration(ms) * time.Millisecond
+		}
+		tk := w.N.gate.find("read", ref, wait)
 		if tk == nil {
 			return errNotEnabled
 		}
@@ -1069,7 +1074,12 @@ func (w *world) suffix() {
 			if w.prevJob[tn] < 0 {
 				continue
 			}
-			if w.do(step{"a": "Begin", "t": tn}) {
+			// an attempt is due while budget is left and the payload is missing: wait for it; otherwise only look
+			wait := 100
+			if w.prevJob[tn] < realBudget && !w.prevPay[tn] {
+				wait = 4000
+			}
+			if w.do(step{"a": "Begin", "t": tn, "wait": wait}) {
 				progress = true
 				w.do(step{"a": "End", "t": tn})
 			}
